@@ -405,6 +405,26 @@ def check_init(model, pcls, K, d, res, out):
 
 
 PATH_BUDGET = 160
+HARD_BUDGET = 4000
+
+
+def explore_budgeted(model, pcls, K, d, newlayer, two_step, aliased=False):
+    """All abstract runs of one configuration as a list of (oracle, result): with the cousin expansion when that stays within
+    PATH_BUDGET paths, else with the single step; more than HARD_BUDGET paths even then is reported as Unsupported."""
+    ts = two_step
+    while True:
+        out = []
+        overflow = False
+        for oracle, res in A.explore(lambda o: run_steps(model, pcls, K, d, newlayer, o, ts, aliased)):
+            out.append((oracle, res))
+            if (ts and len(out) > PATH_BUDGET) or len(out) > HARD_BUDGET:
+                overflow = True
+                break
+        if not overflow:
+            return out
+        if not ts:
+            raise A.Unsupported("make_children branches in more than %d ways on symbolic conditions" % HARD_BUDGET)
+        ts = False
 
 
 def _one_config(args):
